@@ -168,7 +168,8 @@ extern MPT_INTERFACE(metatype) *_mpt_iterator_factor(MPT_STRUCT(value) *val)
 			if (ret >= 0) {
 				++cont;
 			}
-			if (cont < 2) {
+			/* factor not supplied */
+			if (cont < 3) {
 				if (fd.base < DBL_MIN) {
 					errno = EINVAL;
 					return 0;
